@@ -1136,19 +1136,20 @@ def clean_cases(ctx, volume=1):
                 ctx.count("plate-structures-3:creates-new-ordinal")
             yield variants_for(rng, g, plates3, elim, full=False)
             # plate scales (all / some / none of the eliminated plates) through sum_product / psp / a split
-            if rng.random() < (0.25 if not thorough else 0.6):
+            few = 0.5 if (thorough and len(shape) >= 4) else 1.0   # thorough: the many 4-factor shapes get half the extras
+            if rng.random() < (0.25 if not thorough else 0.3) * few:
                 cs = scaled_cases(rng, g, plates3, elim, n=1)
                 if cs:
                     ctx.count("stratum:plate-scales")
                     yield cs
             # factors depending on a free real parameter w, evaluated at two values after the sum-product
-            if rng.random() < (0.07 if not thorough else 0.2):
+            if rng.random() < (0.07 if not thorough else 0.06) * few:
                 cs = real_param_cases(rng, g, plates3, elim)
                 if cs:
                     ctx.count("stratum:real-parameter")
                     yield cs
             # other factor kinds (Constant over some of the plates, Number, lazy) on the same shape
-            if rng.random() < (0.18 if not thorough else 0.5):
+            if rng.random() < (0.18 if not thorough else 0.25) * few:
                 srd = rng.choice(["add-mul", "add-mul", "logaddexp-add", "logaddexp-add", "max-add", "min-mul"])
                 gd = make_graph(rng, [tuple(f) for f in shape], sizes, srd)
                 cs = decorated_cases(rng, gd, plates3, elim)
@@ -1158,7 +1159,7 @@ def clean_cases(ctx, volume=1):
                     ctx.count("stratum:factor-kinds")
                     yield cs
     # --- random larger ---------------------------------------------------------------------
-    n = (300 if not thorough else 3500) * volume
+    n = (300 if not thorough else 2500) * volume
     made = 0
     while made < n:
         factors, sizes, plates = gen_random_graph(rng, ctx.tier)
@@ -1174,7 +1175,7 @@ def correspond(ctx):
     ctx.rule = ("(0) EVERY plate structure: all multisets of <= 3 factors (thorough: plus a seed-rotated third of the 33,963 four-factor shapes; quick samples 350 with 4) over "
                 "3 variables and 3 plates up to renaming (3038 / 37001 shapes), full elimination (+ a random eliminate set), "
                 "sizes fitted under the unrolling cap, six semirings in rotation; "
-                "on 7% (thorough 20%) a copy where 1-2 factors are Tensor (x) Variable(w, Real), the lazy result evaluated at two "
+                "on 7% a copy where 1-2 factors are Tensor (x) Variable(w, Real), the lazy result evaluated at two "
                 "values of w against the oracle with w substituted before; on 18% a copy with other FACTOR KINDS of identical meaning: funsor.Constant over 1-3 of a factor's plates, Number, lazy "
                 "Binary, and the SAME funsor object listed 2-3 times (duplicate factors) (psp + sum_product / plate-at-a-time and random two-call splits); "
                 "(1) every multiset of <= 3 factors over 3 variables and 2 plates up to renaming (1018 shapes), sizes 1-2, "
